@@ -30,12 +30,17 @@
 //! pointer excursion from the first interpreter activation to the deepest point seen (hook at
 //! `eval_impl` entry and inside `tick()`), overhead = thread entry to first activation.
 //!
+//! Built twice: by the harness package (feature `verif_hooks` of minijinja on: high-water marks and
+//! depth probes) and with `--no-default-features` (cargo feature `hooks` off: minijinja WITHOUT `verif_hooks`, the
+//! crate as users compile it: outcome and stack only).
+//!
 //! usage: c11 gen <quick|thorough>   — enumerate the cases, run them in children, print results
 //!        c11 cases <quick|thorough> — print the case list only
 //!        c11 one <case fields…>     — run one case in a child (replay)
 //!        c11 batch                  — (child) cases on stdin, one result line each
 //!        c11 show <shape>           — print the generated templates of a shape
 use minijinja::value::Value;
+#[cfg(feature = "hooks")]
 use minijinja::verif_hooks::recursion;
 use minijinja::{Environment, Error, ErrorKind, State};
 use mjh::*;
@@ -71,8 +76,31 @@ fn rb(state: &mut State, name: String) -> Result<Value, Error> {
 static DRIFT: Mutex<Option<String>> = Mutex::new(None);
 
 /// the current `Context::depth()`
+#[cfg(feature = "hooks")]
 fn dp(state: &State) -> usize {
     recursion::depth_of(state)
+}
+
+/// the build without verification hooks (the crate as users compile it) cannot read the depth:
+/// only the outcome and the stack are observed there
+#[cfg(not(feature = "hooks"))]
+fn dp(_state: &State) -> usize {
+    0
+}
+
+/// the marks of a build without hooks: nothing but the deepest stack pointer seen in `tick()`
+#[cfg(not(feature = "hooks"))]
+mod recursion {
+    pub struct Marks {
+        pub native_high_water: usize,
+        pub depth_high_water: usize,
+        pub sp_top: usize,
+        pub sp_low: usize,
+    }
+    pub fn reset() {}
+    pub fn marks() -> Marks {
+        Marks { native_high_water: 0, depth_high_water: 0, sp_top: 0, sp_low: usize::MAX }
+    }
 }
 
 /// a completed nested construct must leave the depth as it found it
@@ -96,15 +124,71 @@ fn cmf(state: &mut State, name: String) -> Result<Value, Error> {
     state.call_macro(&name, &[]).map(Value::from_safe_string)
 }
 
+static UQ: AtomicUsize = AtomicUsize::new(0);
+
+/// a fresh number: `"deepx" ~ uq()` names a template the loader has not compiled yet
+fn uq() -> usize {
+    UQ.fetch_add(1, Ordering::Relaxed)
+}
+
+/// `Value::call` on a macro object from a Rust function
+fn callv(state: &mut State, f: Value) -> Result<Value, Error> {
+    f.call(state, &[])
+}
+
+/// `Value::call_method` from a Rust function (falls back to calling the attribute)
+fn callmeth(state: &mut State, obj: Value, name: String) -> Result<Value, Error> {
+    obj.call_method(state, &name, &[])
+}
+
+/// a filter implemented in Rust that calls a macro through `State::call_macro`
+fn viaf(state: &mut State, _v: Value, name: String) -> Result<Value, Error> {
+    state.call_macro(&name, &[]).map(Value::from_safe_string)
+}
+
+/// a test implemented in Rust that calls a macro through `State::call_macro`
+fn viat(state: &mut State, _v: Value, name: String) -> Result<bool, Error> {
+    state.call_macro(&name, &[]).map(|_| true)
+}
+
+/// `State::apply_filter` from a Rust function
+fn af(state: &mut State, fname: String, arg: String) -> Result<Value, Error> {
+    state.apply_filter(&fname, &[Value::from(1), Value::from(arg)])
+}
+
+/// `State::perform_test` from a Rust function
+fn pt(state: &mut State, tname: String, arg: String) -> Result<bool, Error> {
+    state.perform_test(&tname, &[Value::from(1), Value::from(arg)])
+}
+
+/// sources the loader makes up on demand (compiled lazily, at the native depth of the include)
+fn lazy_source(name: &str) -> Option<String> {
+    if name.starts_with("deepx") {
+        // 70 parentheses: 140 levels of the parser's recursion guard (limit 150)
+        Some(format!("{{{{ {}1{} }}}}", "(".repeat(70), ")".repeat(70)))
+    } else if name.starts_with("deepl") {
+        // nested lists: deep AST, so code generation and drop recurse as well
+        Some(format!("{{{{ {}1{}|length }}}}", "[".repeat(60), "]".repeat(60)))
+    } else if name.starts_with("deepb") {
+        Some(format!("{}x{}", "{% if true %}".repeat(100), "{% endif %}".repeat(100)))
+    } else if name.starts_with("dsyn") {
+        Some(format!("{{{{ {}1 }}}}", "(".repeat(70)))
+    } else if name.starts_with("dtoo") {
+        Some(format!("{{{{ {}1{} }}}}", "(".repeat(200), ")".repeat(200)))
+    } else {
+        None
+    }
+}
+
 fn fail() -> Result<Value, Error> {
     Err(Error::new(ErrorKind::InvalidOperation, "boom"))
 }
 
 /// blocks the noise statements render through `State::render_block`; part of every template
 /// whose block table can be the current one
-const DEFS: &str = "{% if false %}{% block tinyblk %}t{% endblock %}{% block missblk %}{% include \"nope\" %}{% endblock %}{% block boomblk %}{% include \"boom\" %}{% endblock %}{% endif %}";
+const DEFS: &str = "{% if false %}{% block tinyblk %}t{% endblock %}{% block missblk %}{% include \"nope\" %}{% endblock %}{% block boomblk %}{% include \"boom\" %}{% endblock %}{% block synblk %}{% include \"dsyn\" ~ uq() %}{% endblock %}{% block tooblk %}{% include \"dtoo\" ~ uq() %}{% endblock %}{% endif %}";
 
-const NOISE: [char; 12] = ['1', '2', '3', '4', '5', '6', '7', '8', '9', 'a', 'b', 'c'];
+const NOISE: [char; 17] = ['1', '2', '3', '4', '5', '6', '7', '8', '9', 'a', 'b', 'c', 'd', 'e', 'f', 'g', 'h'];
 
 fn noise_name(n: char) -> &'static str {
     match n {
@@ -120,6 +204,11 @@ fn noise_name(n: char) -> &'static str {
         'a' => "call_macro",
         'b' => "swallowed-missing-include",
         'c' => "swallowed-failing-include",
+        'd' => "lazy-load-deep-expr",
+        'e' => "lazy-load-deep-ast",
+        'f' => "lazy-load-deep-stmts",
+        'g' => "swallowed-lazy-syntax-error",
+        'h' => "swallowed-lazy-parser-limit",
         _ => "none",
     }
 }
@@ -139,6 +228,11 @@ fn noise_src(n: char) -> String {
         'a' => "{% macro nzm() %}m{% endmacro %}{{ cmf(\"nzm\") }}",
         'b' => "{{ tryb(\"missblk\") }}",
         'c' => "{{ tryb(\"boomblk\") }}",
+        'd' => "{% include \"deepx\" ~ uq() %}",
+        'e' => "{% include \"deepl\" ~ uq() %}",
+        'f' => "{% include \"deepb\" ~ uq() %}",
+        'g' => "{{ tryb(\"synblk\") }}",
+        'h' => "{{ tryb(\"tooblk\") }}",
         _ => return String::new(),
     };
     format!("{{% set dq0 = dp() %}}{src}{{{{ chk(\"{}\", dq0, dp()) }}}}", noise_name(n))
@@ -280,6 +374,10 @@ fn build_inner(shape: &str) -> Result<(BTreeMap<String, String>, String), String
                     ),
                     'B' => body(e, &format!("{{% block b %}}{inc}{{% endblock %}}")),
                     'L' => body(e, &loop2(&inc)),
+                    'Y' => format!(
+                        "{{% macro im() %}}{{% import \"n{j}\" as q %}}{{% endmacro %}}{}",
+                        body(e, "{{ im() }}")
+                    ),
                     k => return Err(format!("bad T edge {k}")),
                 };
                 t.insert(format!("n{i}"), src);
@@ -298,6 +396,18 @@ fn build_inner(shape: &str) -> Result<(BTreeMap<String, String>, String), String
                     'A' => body(e, &format!("{{% set r = m{j}(1, b=2) %}}{{{{ r }}}}")),
                     'C' => body(e, &format!("{{% call cw() %}}{call}{{% endcall %}}")),
                     'L' => body(e, &loop2(&call)),
+                    // recursion edges that pass through Rust: State::call_macro, Value::call,
+                    // Value::call_method, filters/tests implemented in Rust (directly, through
+                    // map/select, a filter block, State::apply_filter / perform_test)
+                    'Q' => body(e, &format!("{{% if false %}}{{{{ m{j} }}}}{{% endif %}}{{{{ cmf(\"m{j}\") }}}}")),
+                    'O' => body(e, &format!("{{{{ callv(m{j}) }}}}")),
+                    'H' => body(e, &format!("{{% set ns = namespace() %}}{{% set ns.f = m{j} %}}{{{{ callmeth(ns, \"f\") }}}}")),
+                    'F' => body(e, &format!("{{% if false %}}{{{{ m{j} }}}}{{% endif %}}{{{{ [1]|map(\"viaf\", \"m{j}\")|join }}}}")),
+                    'E' => body(e, &format!("{{% if false %}}{{{{ m{j} }}}}{{% endif %}}{{{{ [1]|select(\"viat\", \"m{j}\")|list|length }}}}")),
+                    'G' => body(e, &format!("{{% if false %}}{{{{ m{j} }}}}{{% endif %}}{{{{ af(\"viaf\", \"m{j}\") }}}}")),
+                    'U' => body(e, &format!("{{% if false %}}{{{{ m{j} }}}}{{% endif %}}{{{{ pt(\"viat\", \"m{j}\") }}}}")),
+                    'D' => body(e, &format!("{{% if false %}}{{{{ m{j} }}}}{{% endif %}}{{% filter viaf(\"m{j}\") %}}x{{% endfilter %}}")),
+                    'N' => body(e, &format!("{{% call cw() %}}{{% call cw() %}}{call}{{% endcall %}}{{% endcall %}}")),
                     'J' => {
                         t.insert(format!("back{j}"), call.clone());
                         body(e, &format!("{{% if false %}}{{{{ m{j} }}}}{{% endif %}}{{% include \"back{j}\" %}}"))
@@ -407,7 +517,7 @@ fn root_cause(e: &Error) -> (ErrorKind, String) {
 }
 
 #[inline(never)]
-fn run_here(shape: &str, limit: usize, budget: i64) -> String {
+fn run_here(shape: &str, limit: usize, budget: i64, mode: &str) -> String {
     let top_marker = 0u8;
     let top = &top_marker as *const u8 as usize;
     let (templates, entry) = match build(shape) {
@@ -423,7 +533,17 @@ fn run_here(shape: &str, limit: usize, budget: i64) -> String {
     env.add_function("tryb", tryb);
     env.add_function("cmf", cmf);
     env.add_function("fail", fail);
-    env.set_loader(move |name| Ok(templates.get(name).cloned()));
+    env.add_function("uq", uq);
+    env.add_function("callv", callv);
+    env.add_function("callmeth", callmeth);
+    env.add_function("af", af);
+    env.add_function("pt", pt);
+    env.add_filter("viaf", viaf);
+    env.add_test("viat", viat);
+    let entry_source = templates.get(&entry).cloned().unwrap_or_default();
+    env.set_loader(move |name| Ok(templates.get(name).cloned().or_else(|| lazy_source(name))));
+    // the limit is configured before the environment is cloned
+    let env = if mode == "clone" { env.clone() } else { env };
     let tree_depth = match shape.split(':').collect::<Vec<_>>()[..] {
         ["L", d, _] => d.parse().unwrap_or(0),
         _ => 0,
@@ -434,16 +554,45 @@ fn run_here(shape: &str, limit: usize, budget: i64) -> String {
     TICK_LOW.store(usize::MAX, Ordering::Relaxed);
     recursion::reset();
     *DRIFT.lock().unwrap() = None;
+    UQ.store(0, Ordering::Relaxed);
     let r = guarded(|| {
-        let tmpl = env.get_template(&entry)?;
         let mut ctx = BTreeMap::new();
         ctx.insert("tree", tree.clone());
         ctx.insert("nest2", nest2.clone());
-        tmpl.render(Value::from(ctx))
+        let ctx = Value::from(ctx);
+        match mode {
+            "write" => {
+                let tmpl = env.get_template(&entry)?;
+                let mut sink = Vec::<u8>::new();
+                tmpl.render_captured_to(ctx, &mut sink).map(|_| String::new())
+            }
+            "captured" => {
+                let tmpl = env.get_template(&entry)?;
+                tmpl.render_captured(ctx).map(|c| c.output().to_string())
+            }
+            "str" => env.render_named_str(&entry, &entry_source, ctx),
+            "state" => {
+                // an empty state (no frame, no root activation) and a block rendered from Rust
+                let tmpl = env.get_template(&entry)?;
+                let mut state = tmpl.new_state();
+                state.render_block("b0")
+            }
+            _ => {
+                let tmpl = env.get_template(&entry)?;
+                tmpl.render(ctx)
+            }
+        }
     });
     let m = recursion::marks();
     let low = m.sp_low.min(TICK_LOW.load(Ordering::Relaxed));
-    let (bytes, over) = if m.sp_top == 0 { (0, 0) } else { (m.sp_top.saturating_sub(low), top.saturating_sub(m.sp_top)) };
+    let (bytes, over) = if m.sp_top != 0 {
+        (m.sp_top.saturating_sub(low), top.saturating_sub(m.sp_top))
+    } else if low != usize::MAX {
+        // no hooks: from the start of the case to the deepest `tick()`
+        (top.saturating_sub(low), 0)
+    } else {
+        (0, 0)
+    };
     let (status, topk, rootk) = match r {
         Ok(Ok(_)) => ("ok".to_string(), "-".to_string(), "-".to_string()),
         Ok(Err(e)) => {
@@ -471,11 +620,13 @@ fn run_case(case: &str) -> String {
     let shape = f[0].to_string();
     let limit: usize = f[1].parse().unwrap_or(0);
     let budget: i64 = f[2].parse().unwrap_or(0);
-    match f[3] {
-        "main" => run_here(&shape, limit, budget),
+    let (thread, mode) = f[3].split_once('+').unwrap_or((f[3], ""));
+    let mode = mode.to_string();
+    match thread {
+        "main" => run_here(&shape, limit, budget, &mode),
         "t2m" => std::thread::Builder::new()
             .stack_size(2 << 20)
-            .spawn(move || run_here(&shape, limit, budget))
+            .spawn(move || run_here(&shape, limit, budget, &mode))
             .unwrap()
             .join()
             .unwrap_or_else(|_| "panic:thread\t0\t0\t-\t-\t0\t0\t-".into()),
@@ -547,8 +698,8 @@ fn run_in_children(cases: &[String]) -> Vec<String> {
 
 // ------------------------------------------------------------------------------------ generation
 
-const T_KINDS: [char; 6] = ['I', 'P', 'W', 'K', 'B', 'L'];
-const M_KINDS: [char; 5] = ['M', 'A', 'C', 'L', 'J'];
+const T_KINDS: [char; 7] = ['I', 'P', 'W', 'K', 'B', 'L', 'Y'];
+const M_KINDS: [char; 14] = ['M', 'A', 'C', 'L', 'J', 'Q', 'O', 'H', 'F', 'E', 'G', 'U', 'D', 'N'];
 const B_KINDS: [char; 6] = ['B', 'V', 'R', 'M', 'L', 'S'];
 
 fn edge_str(kind: char, rng: &mut Rng, plain: bool) -> String {
@@ -635,6 +786,28 @@ fn cases(tier: &str) -> Vec<String> {
             out.push(format!("{sh} 100000 0 {th}"));
         }
         out.push(format!("{sh} 501 170 t2m"));
+    }
+    // limit configuration and entry points: limit 0 and usize::MAX, the environment cloned after
+    // the limit was set, render_captured / render_captured_to (io::Write) / render_named_str, and
+    // a block rendered from Rust on an empty state (`Template::new_state`)
+    for sh in shapes.iter().filter(|s| !s.contains(',') && s.ends_with("0000")) {
+        for limit in ["0", "18446744073709551615"] {
+            out.push(format!("{sh} {limit} 0 t2m"));
+            out.push(format!("{sh} {limit} 2 t2m"));
+        }
+        for mode in ["clone", "write", "captured", "str"] {
+            out.push(format!("{sh} 100 0 t2m+{mode}"));
+            out.push(format!("{sh} 500 0 t2m+{mode}"));
+            out.push(format!("{sh} 500 3 main+{mode}"));
+        }
+    }
+    for k in ['B', 'V', 'R'] {
+        for limit in [1usize, 2, 10, 100, 500] {
+            for budget in [0usize, 1, 5] {
+                out.push(format!("B:{k}0000 {limit} {budget} t2m+state"));
+            }
+        }
+        out.push(format!("B:{k}0000,{k}0000 500 0 main+state"));
     }
     // drift detection: every noise statement 1000 times in a loop, in every surrounding
     for ctx in ['t', 'i', 'm', 'b', 'x'] {
